@@ -209,7 +209,12 @@ def gen_compare_prog(rng, nan_bias=False, cur=None):
             # the push itself puts `count` on top; a leading '?' consumes it (count < count is false -> right)
             # so that the remaining operators meet the prepared operands
             a = ('?', None, a)
-        prog.append((0, h, c // h if c else 0, a))
+        if c > 3 and rng.random() < 0.25 and cur == 3:
+            # the comparison sits on an add / multiply command with more than three dots (count = dots): it moves one operand
+            # to stack `count` and then its area pops the operands proper
+            prog.append((rng.choice([1, 2]), 1, c, a[2] if (isinstance(a, tuple) and a[0] == '?' and a[1] is None) else a))
+        else:
+            prog.append((0, h, c // h if c else 0, a))
         if rng.random() < 0.3:
             prog += push_value(rng.choice(counts), cur)
     if nan_bias or rng.random() < 0.6:
@@ -273,6 +278,37 @@ def _case(i):
                 res['hist']['diverged_outside_comparisons(see C01/C06)'] = 1
         res['sample'] = {'program': C.clip(text, 200), 'comparisons': [
             '%s %s %d -> %s' % (N.fr_text(v), op, cnt, 'left' if left else 'right') for v, cnt, op, left in m2.cmp_log[:6]]}
+        if diff is None and rend in ('end', 'exit0', 'exit1'):
+            # the same comparisons at optimisation levels 1 and 2 (the optimiser rewrites stack operands; the count a command
+            # compares with must stay syllables x dots of the SOURCE).  Attribution as in the compiled slice: the program
+            # with all areas removed is the control.
+            control = [(t_, h_, d_, None) for (t_, h_, d_, a_) in prog]
+            mc, co, ce, cend = P.admit(control, '', lim)
+            ctext = P.render_text(rng, control)
+            if ctext is not None and cend in ('end', 'exit0', 'exit1'):
+                cpath = P.write_program(rundir, 'c%d_%d.hyeong' % (os.getpid(), i), ctext)
+                try:
+                    for level in (1, 2):
+                        obs = P.run_interp(C.HYEONG, path, level, b'', hint=(re_, rend))
+                        if obs.kind in ('wall', 'cpu'):
+                            res['items'].append(('i', 'level %d run unusable for %s' % (level, res['key'])))
+                            continue
+                        d1 = P.compare_to_ref(obs, ro, re_, rend, lenient_encerr=True)
+                        res['hist']['optimised_runs_of_compare_programs'] = res['hist'].get('optimised_runs_of_compare_programs', 0) + 1
+                        if d1 is None or d1.startswith('INCONCLUSIVE'):
+                            continue
+                        cobs = P.run_interp(C.HYEONG, cpath, level, b'', hint=(ce, cend))
+                        if P.compare_to_ref(cobs, co, ce, cend, lenient_encerr=True) is not None:
+                            res['hist']['optimised_control_differs(see C02)'] = 1
+                            continue
+                        res['items'].append(('v', 'branch-O%d:%s' % (level, res['key']), 'at an optimisation level a ?/! branch differs from the numeric order', {
+                            'program': text, 'level': level, 'difference': d1, 'comparisons_by_reference': [
+                                {'value': N.fr_text(v), 'count': cnt, 'op': op, 'left': left} for v, cnt, op, left in m2.cmp_log[:12]]}))
+                finally:
+                    try:
+                        os.unlink(cpath)
+                    except OSError:
+                        pass
         return res
     finally:
         for p_ in (path, tpath):
@@ -341,7 +377,7 @@ def _compiled_case(i):
 def main(tier, seed):
     t0 = time.time()
     rep = C.Reporter(PID, tier, seed)
-    C.build(['num', 'core'])
+    C.build(['repo', 'num', 'core'])
     shards, per = (32, 1250) if tier == 'quick' else (160, 12500)
     bad, hist, samples, n = N.run_sharded(MOD, tier, seed, shards, per)
     for c, why in bad:
